@@ -119,9 +119,20 @@ class Ctx:
             raise
         if self.g("out", node) == "exc":
             self.log("raise", node)
+            self.stall(node)
             raise VExc(node)
         self.log("end", node)
+        self.stall(node)
         return self.ret[node]
+
+    def stall(self, node):
+        """the body keeps the event loop busy for a while after it has decided
+        its outcome (a blocking call): the clock moves on while every other
+        callback is kept waiting"""
+        amount = self.hk("stall", node, 0)
+        if amount > 0:
+            self.log("stall", node, num=self.loop.vtime + amount)
+            self.loop.vtime += amount
 
     async def handler(self, node):
         self.log("shut", node)
@@ -324,9 +335,29 @@ def build(ctx):
         return ctx.obj[node]
 
     top = mk(1)
-    for i in range(2, n + 1):
-        for r in ctx.g("req", i):
-            ctx.obj[i].requires(ctx.obj[r])
+    edges = [(i, r) for i in range(2, n + 1) for r in ctx.g("req", i)]
+    prep = ctx.h.get("prep", 0)
+    half = len(edges) // 2 if prep == 1 else len(edges)
+    for i, r in edges[:half]:
+        ctx.obj[i].requires(ctx.obj[r])
+    if prep:
+        # a user may inspect the scheduler while building it: the query API
+        # must not leave anything behind that a later run depends on
+        for s in range(1, n + 1):
+            sched = ctx.obj[s]
+            if not isinstance(sched, PureScheduler):
+                continue
+            list(sched.entry_jobs())
+            list(sched.exit_jobs())
+            sched.check_cycles()
+            for job in list(sched.jobs)[:2]:
+                sched.successors_downstream(job)
+                sched.predecessors_upstream(job)
+            list(sched.iterate_jobs())
+            if prep == 2:
+                sched.sanitize()
+    for i, r in edges[half:]:
+        ctx.obj[i].requires(ctx.obj[r])
     return top
 
 
